@@ -59,6 +59,28 @@ mod server;
 mod state;
 mod wallet;
 
+/// Verification hook: when switched on, `getblockchaininfo` reports the real header count (the
+/// height of the best block) instead of 0, so that code that compares its own height with the
+/// node's tip (`Reorg::is_savepoint_required`) can be exercised far behind the tip.
+#[cfg(feature = "verif")]
+pub mod verif {
+  use std::sync::atomic::{AtomicBool, Ordering};
+
+  static REPORT_HEADERS: AtomicBool = AtomicBool::new(false);
+
+  pub fn report_headers(on: bool) {
+    REPORT_HEADERS.store(on, Ordering::SeqCst);
+  }
+
+  pub(crate) fn headers(hashes: usize) -> u64 {
+    if REPORT_HEADERS.load(Ordering::SeqCst) {
+      u64::try_from(hashes).unwrap().saturating_sub(1)
+    } else {
+      0
+    }
+  }
+}
+
 fn parse_hex_tx(tx: String) -> Transaction {
   let mut cursor = bitcoin::io::Cursor::new(hex::decode(tx).unwrap());
 
